@@ -192,7 +192,8 @@ live handle that no live handle precedes (`IsMin`; `Pop` erases it), `Len` is th
 handles, `Remove(e)` erases exactly `e` (the identity for stale and foreign handles), `Fix` changes
 nothing but the value, `Init` makes the fresh handles of the given values the live ones (the old
 ones are dropped) and installs the comparator, `PopAll` returns the values of the live handles,
-each once, sorted, and leaves none.  Client obligations (`specPre`): the comparator given to
+each once, sorted, and leaves none; a `PopAll` left after `k` elements (`popAllN`) is `k` `Pop`s.
+Client obligations (`specPre`): the comparator given to
 `Init` is a strict weak order; `PushElement(e)` is called with an allocated element that is in
 no heap; a value changed by `setFix h e v` does not belong to the OTHER heap.
 
@@ -257,14 +258,36 @@ theorem c04_heap_handles :
     obtain ⟨m', hrun, hrm⟩ := (pop_spec hs hh hok).2 hne
     exact ⟨m', hrun, hrm, heapOrd_root_min hs (hok.ord h hh)⟩
 
+/-- A `PopAll` that the consumer leaves early (`for x := range h.PopAll() { …; break }` after `k`
+received elements; model `Slice.popAllK` / `HMem.popAllK`, ops `SOp.popAllN` / `HOp.popAllN`, also
+covered by `c04_slice_sequences` and `c04_heap_handles`) IS `k` calls of `Pop`:
+(1) `Slice`: no panic; `min k len` elements are yielded, sorted; none of the remaining elements
+    precedes a yielded one; `Values` is heap-ordered and holds exactly the remaining multiset.
+(2) `Slice`: `Values` afterwards equals `Values` after the op list `[pop, …, pop]` (`k` times).
+(3) `Heap`: the popped handles are the results of `k` successive `Pop`s of the spec (`PopsOK`:
+    each a live handle no live handle precedes at its turn; fewer than `k` iff the heap ran empty),
+    and the relation `Rel` (heap order, exact indices/owners, the popped handles detached) holds
+    with the spec state after those `Pop`s. -/
+theorem c04_popall_interrupted {cmp} (hs : SWO cmp) :
+    (∀ (k : Nat) (s : List Int), Heap cmp s →
+      ∃ s' xs, Slice.popAllK cmp k s = some (s', xs) ∧ Heap cmp s' ∧ xs.length = min k s.length ∧
+        (xs ++ s').Perm s ∧ xs.Pairwise (fun a b => cmp b a = false) ∧
+        ∀ x, x ∈ xs → ∀ y, y ∈ s' → cmp y x = false) ∧
+    (∀ (k : Nat) (s : List Int),
+      (stepS cmp s (.popAllN k)).map (fun p => p.1) = runS cmp (List.replicate k .pop) s) ∧
+    (∀ (h : Fin 2) (k : Nat) (st : HState) (s : HSpec), Rel st s →
+      ∃ m' es, HMem.popAllK (st.cmp h.val) h.val k st.m = some (m', es) ∧ PopsOK s h k es ∧
+        Rel { st with m := m' } (specPops s h es)) :=
+  ⟨slice_popAllK hs, slice_popAllN_is_pops cmp, fun h k st s R => rel_popAllK h k st s R⟩
+
 /-- Non-vacuity of `specPre`: after `Push(7)` on heap A returned handle 0 and `Pop` returned it,
 handle 0 is allocated and live nowhere, so `B.PushElement(0)` is a call the client may make; and
 `setFix A 0 9` is allowed while 0 lives in A. -/
 example (cmp : Int → Int → Bool) :
     specPre (specStep (specStep (HSpec.zero cmp) (.push 0 7) (.handle (some 0))) (.pop 0) (.handle (some 0)))
       (.pushElem 1 0) := by
-  refine ⟨by simp [specStep, HSpec.zero], ?_⟩
-  intro h'; simp [specStep, HSpec.setLive, HSpec.zero]
+  refine ⟨by simp [specStep, specPop, HSpec.zero], ?_⟩
+  intro h'; simp [specStep, specPop, HSpec.setLive, HSpec.zero]
 
 example (cmp : Int → Int → Bool) :
     specPre (specStep (HSpec.zero cmp) (.push 0 7) (.handle (some 0))) (.setFix 0 0 9) := by
